@@ -108,7 +108,7 @@ class Oracle:
             self.bel, self.route, self.stored = {}, {}, {}
             return None
         if name == "c.own":
-            p, b = reply.split("pick=")[1].split("/")
+            p, b = reply.split("pick=")[1].split()[0].split("/")
             self.route[a[1]] = (int(p.split(",")[-1]), [int(x) for x in b.split(",")] if b != "-" else [])
             return None
         if name == "c.lock":
@@ -192,7 +192,7 @@ class Gen:
         owner = {}
         for k in keys:
             rep = yield "c.own dm %s" % k
-            owner[k] = int(rep.split("pick=")[1].split("/")[0].split(",")[-1])
+            owner[k] = int(rep.split("pick=")[1].split()[0].split("/")[0].split(",")[-1])
         toks = {k: [] for k in keys}       # (token, path it was obtained through)
         TMO = [0, 0, 200, 500, 1000]
 
